@@ -336,7 +336,8 @@ def run_models(spec, acc, api):
             init = {'va': float(rnd.randint(0, 3)), 'vb': float(rnd.randint(0, 3)), 'vc': rnd.random() < 0.5, 'vd': False}
             name = f'structured{i}'
         else:
-            stmts = rand_stmts(rnd, rnd.randint(1, 30), ['n', 'm', 'c'], False)
+            # variable names are arbitrary strings at model level (the empty string and names with blanks are schema-valid)
+            stmts = rand_stmts(rnd, rnd.randint(1, 30), ['n', 'm', 'c'] if rnd.random() < 0.7 else ['n', '', 'c', 'x y', '0'], False)
             if rnd.random() < 0.3:
                 for st in stmts:
                     if 'function' in st and st['function'].get('args') and rnd.random() < 0.5:
